@@ -151,80 +151,10 @@ fn c11_store_m3_l3() {
     c11_store_step::<3, 3>();
 }
 
-// ---- environment stubs for the occurrence counter (std HashMap<u64,u64>) ---------------------------
-// hashbrown under CBMC: SIMD group probing needs unwind 17 in every lookup and did not leave symbolic
-// execution in 60 min.  The three methods hash_set uses are replaced by an association list with the
-// same contract (insert/overwrite, lookup by key equality, clear).  The real map object is never touched.
-pub(crate) mod hm {
-    use std::borrow::Borrow;
-    use std::collections::HashMap;
-    use std::hash::{BuildHasher, Hash};
-    pub const CAP: usize = 4;
-    pub static mut KEYS: [u64; CAP] = [0; CAP];
-    pub static mut VALS: [u64; CAP] = [0; CAP];
-    pub static mut N: usize = 0;
-
-    pub fn clear<K, V, S, A: std::alloc::Allocator>(_m: &mut HashMap<K, V, S, A>) {
-        unsafe {
-            N = 0;
-        }
-    }
-    pub fn get_mut<'a, K, V, S, A: std::alloc::Allocator, Q: ?Sized>(_m: &'a mut HashMap<K, V, S, A>, k: &Q) -> Option<&'a mut V>
-    where
-        K: Eq + Hash + Borrow<Q>,
-        Q: Hash + Eq,
-        S: BuildHasher,
-    {
-        unsafe {
-            let key: u64 = *(k as *const Q as *const u64);
-            macro_rules! probe {
-                ($i:expr) => {
-                    if $i < N && KEYS[$i] == key {
-                        return Some(&mut *(&mut VALS[$i] as *mut u64 as *mut V));
-                    }
-                };
-            }
-            probe!(0);
-            probe!(1);
-            probe!(2);
-            probe!(3);
-            None
-        }
-    }
-    pub fn insert<K, V, S, A: std::alloc::Allocator>(_m: &mut HashMap<K, V, S, A>, k: K, v: V) -> Option<V>
-    where
-        K: Eq + Hash,
-        S: BuildHasher,
-    {
-        unsafe {
-            let key: u64 = std::mem::transmute_copy(&k);
-            let val: u64 = std::mem::transmute_copy(&v);
-            std::mem::forget(k);
-            std::mem::forget(v);
-            macro_rules! probe {
-                ($i:expr) => {
-                    if $i < N && KEYS[$i] == key {
-                        let old: V = std::mem::transmute_copy(&VALS[$i]);
-                        VALS[$i] = val;
-                        return Some(old);
-                    }
-                };
-            }
-            probe!(0);
-            probe!(1);
-            probe!(2);
-            probe!(3);
-            assert!(N < CAP, "counter model full");
-            KEYS[N] = key;
-            VALS[N] = val;
-            N += 1;
-            None
-        }
-    }
-}
-
 // =====================================================================================
 // C11 / C12 / C13 — hash_set end to end at tiny size
+// NOT REGISTERED: these harnesses do not leave symbolic execution within 60 min (std HashMap / hashbrown SIMD
+// probing); kept for reference, see DESIGN.md.
 // =====================================================================================
 
 /// Element labels and the RandomState keys are concrete (the per-pair generator is an oracle, so labels
@@ -285,9 +215,6 @@ fn c13_hashset_dirty<const M: usize, const L: usize>() {
 }
 
 #[kani::proof]
-#[kani::stub(std::collections::HashMap::clear, hm::clear)]
-#[kani::stub(std::collections::HashMap::get_mut, hm::get_mut)]
-#[kani::stub(std::collections::HashMap::insert, hm::insert)]
 #[kani::unwind(6)]
 fn c11_hashset_perm_l1_m2() {
     c11_hashset_perm_l1::<2>();
